@@ -7,13 +7,20 @@ set -u
 cd "$(dirname "$0")"
 . ./env.sh
 TESTS=0; TIER=quick
-while getopts "tT:" o; do case $o in t) TESTS=1;; T) TIER=$OPTARG;; esac; done; shift $((OPTIND-1))
+SEEDED=0
+while getopts "tT:s" o; do case $o in t) TESTS=1;; T) TIER=$OPTARG;; s) SEEDED=1;; esac; done; shift $((OPTIND-1))
+# -s: arguments are seeded/<name> directories (patch.diff + meta.json with "property"); otherwise property ids
 IDS=${*:-$(ls mutants 2>/dev/null)}
 pass=0; fail=0; summary=""
-for ID in $IDS; do
-  for p in mutants/$ID/*.patch; do
+for ARG in $IDS; do
+  if [ $SEEDED = 1 ]; then
+    ID=$(python3 -c "import json,sys;print(json.load(open(sys.argv[1]+'/meta.json'))['property'])" $ARG); PATCHES=$ARG/patch.diff
+  else
+    ID=$ARG; PATCHES=$(ls mutants/$ID/*.patch 2>/dev/null)
+  fi
+  for p in $PATCHES; do
     [ -f "$p" ] || continue
-    name=$(basename $p .patch)
+    name=$(basename $p .patch); [ $SEEDED = 1 ] && name=$(basename $ARG)
     tmp=$(mktemp -d $VERIF_WORK/mut.XXXXXX); mkdir -p $tmp/repo
     for f in $(grep '^+++ b/' $p | sed 's,^+++ b/,,'); do mkdir -p $tmp/repo/$(dirname $f); cp $VERIF_REPO/$f $tmp/repo/$f; done
     if ! patch -s -p1 -d $tmp/repo < $p; then echo "MUTANT $ID/$name: patch does not apply"; fail=$((fail+1)); rm -rf $tmp; continue; fi
